@@ -349,6 +349,10 @@ func ruleC13QueryUnfilteredAndPerCall(c *Ctx) {
 				for k := 0; k < 8; k++ {
 					rc, isC := resolve(recv).(*ssa.Call)
 					if !isC {
+						// a helper that extends the builder it is given: every call site must hand it a fresh chain
+						if p, isP := resolve(recv).(*ssa.Parameter); isP {
+							fresh = builderParamFresh(p, 0)
+						}
 						break
 					}
 					h := staticCallee(rc)
@@ -1543,4 +1547,52 @@ func stepSites(f *ssa.Function, pred func(ssa.Instruction) bool) []ssa.Instructi
 		}
 	}
 	return out
+}
+
+// builderFresh: v is a chain of Builder methods that starts at expression.NewBuilder() in its own function, or a
+// parameter that every call site feeds with such a chain.
+func builderFresh(v ssa.Value, depth int) bool {
+	for k := 0; k < 8; k++ {
+		rc, isC := resolve(v).(*ssa.Call)
+		if !isC {
+			if p, isP := resolve(v).(*ssa.Parameter); isP && depth < 2 {
+				return builderParamFresh(p, depth+1)
+			}
+			return false
+		}
+		h := staticCallee(rc)
+		if h == nil {
+			return false
+		}
+		if h.Name() == "NewBuilder" && h.Pkg != nil && strings.HasSuffix(h.Pkg.Pkg.Path(), "/expression") {
+			return true
+		}
+		if h.Signature.Recv() != nil && namedTypeName(h.Signature.Recv().Type()) == "Builder" {
+			v = rc.Call.Args[0]
+			continue
+		}
+		return false
+	}
+	return false
+}
+
+func builderParamFresh(p *ssa.Parameter, depth int) bool {
+	g := p.Parent()
+	idx := -1
+	for k, q := range g.Params {
+		if q == p {
+			idx = k
+		}
+	}
+	buildCallSiteIndex(g)
+	sites := callSiteIndex[orig(g)]
+	if idx < 0 || len(sites) == 0 || addressTaken[orig(g)] {
+		return false
+	}
+	for _, ci := range sites {
+		if idx >= len(ci.Common().Args) || !builderFresh(ci.Common().Args[idx], depth) {
+			return false
+		}
+	}
+	return true
 }
